@@ -218,10 +218,7 @@ def check_oracle(ctx, case, impl):
 
 def run(ctx):
     cnt = Counter()
-    tr = ctx.run_translators(['gen_pyclasses', 'gen_shlibs'])
-    ctx.build_and_audit(['GIVerif.Props.C19'], 'GIVerif.Props.C19')
-    if ctx.tier == 'thorough':
-        ctx.leanchecker(['GIVerif.Props.C19', 'GIVerif.Lemmas.Shlibs', 'GIVerif.Model.Shlibs'])
+    ctx.prove(['gen_pyclasses', 'gen_shlibs'], ['GIVerif.Props.C19'], 'GIVerif.Props.C19')
     shlibs, utils = impl_setup()
     rng = ctx.rng
     scratch = os.path.join(ctx.scratch, 'cwd')
@@ -353,7 +350,6 @@ def run(ctx):
                 'real code, and the statement oracle on the real code.',
         'samples': samples,
         'distribution': cnt.counts,
-        'translators': tr,
         'corpus_cases': len(corpus),
         'exhaustive': False,
     })
